@@ -32,7 +32,7 @@ type Config struct {
 }
 
 func DefaultConfig() Config {
-	return Config{MaxSteps: 200000, MaxPaths: 2000000, MaxDepth: 64, MaxAlloc: 1 << 16, MaxThreads: 6,
+	return Config{MaxSteps: 200000, MaxPaths: 2000000, MaxDepth: 64, MaxAlloc: 1 << 16, MaxThreads: 12,
 		MaxConcretize: 80, MapOrders: true, QueryTimeout: 60000, MaxViolations: 8, Workers: 1}
 }
 
